@@ -447,6 +447,46 @@ def run_oracles(ctx, cases, tag, par=4):
     return out
 
 
+def sequence_check(ctx, rng, n, tag):
+    """two runs in ONE process on the SAME path whose file is replaced in between (other shape, BSCALE, NAXIS): the second result
+    must equal the result of a fresh process on the second file - a call must not depend on state left by an earlier call"""
+    bad, seqjobs, freshjobs, metas = [], [], [], []
+    for i in range(n):
+        r1, c1 = rng.randint(6, 30), rng.randint(6, 24)
+        r2, c2 = (r1, c1) if rng.random() < 0.5 else (rng.randint(6, 30), rng.randint(6, 24))
+        a1 = np.round(np.array([[rng.gauss(20, 2) for _ in range(c1)] for _ in range(r1)]) * 64) / 64
+        a2 = np.round(np.array([[rng.gauss(-5, 3) for _ in range(c2)] for _ in range(r2)]) * 64) / 64
+        f1 = os.path.join(ctx.work, f'{tag}_{i}_first.fits'); f2 = os.path.join(ctx.work, f'{tag}_{i}_second.fits')
+        shared = os.path.join(ctx.work, f'{tag}_{i}_shared.fits')
+        k1 = rng.choice([None, 2.0]); k2 = rng.choice([0.5, 4.0, None] if k1 is None else [None, 0.5])
+        n2 = rng.choice([2, 3]) if (k1, (r1, c1)) == (k2, (r2, c2)) else rng.choice([2, 2, 3])
+        bc.write_fits_case(f1, a1, naxis=2, bscale=k1)
+        bc.write_fits_case(f2, a2, naxis=n2, bscale=k2, cube=(0, 2) if n2 == 3 else None)
+        sr = rng.choice([2, 4]); br = rng.randint(4, 10); cores = rng.randint(1, 3)
+        common = {'step': [sr, sr], 'box': [br, br], 'cores': cores, 'nslice': None, 'mask': True, 'patch': None}
+        seqjobs.append([{'id': f'q{i}a', 'path': shared, 'copy_from': f1, 'save': os.path.join(ctx.work, f'{tag}_{i}_a'), **common},
+                        {'id': f'q{i}b', 'path': shared, 'copy_from': f2, 'save': os.path.join(ctx.work, f'{tag}_{i}_b'), **common,
+                         'cube_index': 0 if n2 == 3 else None}])
+        freshjobs.append({'id': f'q{i}f', 'path': f2, 'save': os.path.join(ctx.work, f'{tag}_{i}_f'), **common,
+                          'cube_index': 0 if n2 == 3 else None})
+        metas.append({'first': {'shape': [r1, c1], 'bscale': k1}, 'second': {'shape': [r2, c2], 'bscale': k2, 'naxis': n2},
+                      'step': sr, 'box': br, 'cores': cores})
+    for i, (sj, fj, m) in enumerate(zip(seqjobs, freshjobs, metas)):
+        rs = bc.run_batch(ctx, sj, tag=f'{tag}s{i}')
+        rf = bc.run_batch(ctx, [fj], tag=f'{tag}f{i}')
+        a, b, f = rs[sj[0]['id']], rs[sj[1]['id']], rf[fj['id']]
+        if any(x.get('hung') or x['raised'] for x in (a, f)):
+            continue                                    # a problem of a single run is reported by the other obligations
+        if b.get('hung') or b['raised']:
+            bad.append((m, f'the second call in the same process failed: {b}'))
+            continue
+        b2, s2 = bc.load_maps(sj[1]); bf, sf = bc.load_maps(fj)
+        if b2.shape != bf.shape or not (np.array_equal(b2, bf, equal_nan=True) and np.array_equal(s2, sf, equal_nan=True)):
+            bad.append((m, f'second call on the replaced file differs from a fresh process on that file: shapes {b2.shape} vs {bf.shape}, '
+                           f'bkg mean {float(np.nanmean(b2)):.6g} vs {float(np.nanmean(bf)):.6g}'))
+    return bad, len(metas)
+
+
 def constant_check(ctx, rng, n, tag):
     """constant images: bkg = c, rms = 0 (every pixel), with the real sigmaclip"""
     cases, jobs = [], []
@@ -573,6 +613,12 @@ def run(ctx, model_ok=True):
         ctx.mismatch('constant image', c, impl=msg, is_violation={'kind': 'constant', **c, 'what': msg})
     ctx.oblige(f'constant images give bkg = c and rms = 0 ({len(kc)} real runs)', not kbad, kbad[:1])
     ctx.evaluations += len(kc)
+    sbad, nseq = sequence_check(ctx, rng, 3 if quick else 20, 'sq')
+    for m, msg in sbad[:2]:
+        ctx.mismatch('two calls in one process on a replaced file', m, impl=msg, is_violation={'kind': 'sequence', **m, 'what': msg})
+    ctx.oblige(f'a call does not depend on an earlier call in the same process: {nseq} (run, replace the file at the same path, run) '
+               f'sequences equal a fresh process bit for bit', not sbad, sbad[:1])
+    ctx.evaluations += nseq
     ctx.notes.append(f'oracle runs with the real sigmaclip in {time.time() - t0:.1f}s')
     # ---- Gaussian noise (statistics: validated, not proved)
     gauss_validation(ctx)
